@@ -12,6 +12,7 @@ CONSTANTS Scheme <- WScheme
           NumCodes <- WNumCodes
           CodeSize <- WCodeSize
           Batches = {0}
+          MaxFetches = 1
           Small = TRUE
 PROPERTY Terminates
 
